@@ -4,6 +4,7 @@ import NurbsVerif.Model.DecomposeE
 import NurbsVerif.Model.RefineA54
 import NurbsVerif.Model.InsertA51
 import NurbsVerif.Model.Transform
+import NurbsVerif.Model.SpanR
 import NurbsVerif.Driver.Parse
 /- shape parsing / printing and the knot-operation ops (C04 …) -/
 namespace Drv
@@ -39,6 +40,19 @@ def shapeOk (S : Shape Rat) : Bool :=
       && isSortedB (S.kv d))
   && decide (S.net.length = S.sizes.foldl (· * ·) 1)
 
+/-- a rational shape with a stored weight 0: the Cartesian `ctrlpts` getter (`separate_ctrlpts_weights`) raises -/
+def zeroWeightStored (S : Shape Rat) : Bool := S.rat && S.net.any (fun pt => pt.getLastD 0 == 0)
+
+/-- the homogeneous point at the start of the domain (what `startPoint` projects: the rotation centre) -/
+def startPointW (S : Shape Rat) : List Rat :=
+  let U (d : Nat) := fnOf (S.kv d)
+  let u0 (d : Nat) : Rat := U d (S.deg d)
+  if S.pdim = 1 then curvePoint (S.deg 0) (U 0) S.net (u0 0)
+  else if S.pdim = 2 then surfacePoint (S.deg 0) (S.deg 1) (U 0) (U 1) (S.size 0) (S.size 1) S.net (u0 0) (u0 1)
+  else volumePoint (S.deg 0) (S.deg 1) (S.deg 2) (U 0) (U 1) (U 2) (S.size 0) (S.size 1) (S.size 2) S.net (u0 0) (u0 1) (u0 2)
+
+def spatialDim (S : Shape Rat) : Nat := if S.rat then (dimOf S.net) - 1 else dimOf S.net
+
 def showShape (S : Shape Rat) : String :=
   s!"{showNats S.degs} {";".intercalate (S.kvs.map showList)} {showNats S.sizes} {showPts S.net}"
 
@@ -47,6 +61,30 @@ def parseOptList (s : String) : Option (List (Option Rat)) :=
 
 def inDomS (S : Shape Rat) (d : Nat) (u : Rat) : Bool :=
   decide (fnOf (S.kv d) (S.deg d) ≤ u) && decide (u ≤ fnOf (S.kv d) (S.size d))
+
+/-- **outside the model** (statement audit 5, I3): the object-level knot-operation models (`insertKnotDir`,
+    `insertKnotDirCoded`, `removeKnotDir`, the volume-rows twins) search the span with `findSpanLinear`, the search
+    WITHOUT the step back of the F-01b repair, while /repo's `find_span_linear` steps back over empty spans
+    (`findSpanLinearR`, Model/SpanR.lean).  The two differ only for a parameter at the domain end `u = U_n` of a knot
+    vector whose last domain span is empty (`U_{n-1} = U_n`) – excluded by every theorem (`KvWF.last`, `DirReqOk.hi`).
+    On exactly those requests the ops answer `OUT` ("not the model's business"): the harness then does not compare the
+    model line and judges the implementation with the oracle alone. -/
+def spanOutS (S : Shape Rat) (d : Nat) (u : Rat) : Bool :=
+  findSpanLinearR (S.deg d) (fnOf (S.kv d)) (S.size d) u != findSpanLinear (S.deg d) (fnOf (S.kv d)) (S.size d) u
+
+/-- some direction that the call really works on (`param` given, `num > 0`) has a span outside the model -/
+def reqSpanOut (S : Shape Rat) (params : List (Option Rat)) (nums : List Nat) : Bool :=
+  (List.range S.pdim).any (fun d => match params.getD d none with
+    | some u => nums.getD d 0 != 0 && spanOutS S d u
+    | none => false)
+
+/-- `check_num=False` with a request beyond the degree (`num + s > degree` in a direction the call works on): the
+    theorems carry `check = false → r + s ≤ p`; the code then raises `ValueError` (empty control points) or silently
+    wraps negative indices and returns another net than the totalised model – outside the model (`OUT`) -/
+def uncheckedOver (S : Shape Rat) (params : List (Option Rat)) (nums : List Nat) (check : Bool) : Bool :=
+  !check && (List.range S.pdim).any (fun d => match params.getD d none with
+    | some u => nums.getD d 0 != 0 && decide (nums.getD d 0 + findMultiplicity u (S.kv d) tolMult > S.deg d)
+    | none => false)
 
 /-- the guard of `operations.insert_knot` / `remove_knot` on the two lists, exactly as the code has it: `param[i]` is
     read for every parametric direction (`IndexError` when `param` is too short; a longer list is accepted, the
@@ -65,7 +103,9 @@ def insSeq (strict : Bool) : Shape Rat → List String → Option String
       let params ← parseOptList ps
       let nums ← parseNats ns
       if !callListsOk S params nums (chk == "1") then return "ERR"
-      if (List.range S.pdim).any (fun d => match params.getD d none with | some u => !inDomS S d u | none => false) then return "ERR"
+      -- a direction with `num = 0` is skipped by the code whatever its parameter is (I5)
+      if (List.range S.pdim).any (fun d => match params.getD d none with | some u => nums.getD d 0 != 0 && !inDomS S d u | none => false) then return "ERR"
+      if reqSpanOut S params nums || uncheckedOver S params nums (chk == "1") then return "OUT"
       let res := insertKnot S params nums tolMult (chk == "1")
       if res.2 then insSeq strict res.1 rest
       else if strict then return "ERR" else insSeq strict res.1 rest
@@ -91,6 +131,16 @@ def applyReq (S : Shape Rat) : List String → Option ((Shape Rat × Bool) × Li
       return (refineKnotvector S dens tolMult, rest)
   | _ => none
 
+/-- the next request of a script is an insertion / removal whose span search is outside the model (`spanOutS`) -/
+def scriptReqOut (S : Shape Rat) : List String → Bool
+  | "I" :: ps :: ns :: _ | "R" :: ps :: ns :: _ =>
+      match parseOptList ps, parseNats ns with
+      | some params, some nums =>
+          !(List.range S.pdim).any (fun d => match params.getD d none with | some u => !inDomS S d u | none => false)
+            && reqSpanOut S params nums
+      | _, _ => false
+  | _ => false
+
 /-- a script of requests (`I` insert, `R` remove, `F` refine); `strict`: an exception aborts the
     script with `ERR`; otherwise (method level) the exception is swallowed and the script continues
     with whatever state the object has -/
@@ -98,6 +148,7 @@ def runScript (strict : Bool) : Nat → Shape Rat → List String → Option Str
   | _, S, [] => some (showShape S)
   | 0, _, _ => none
   | fuel+1, S, toks =>
+      if scriptReqOut S toks then some "OUT" else
       match applyReq S toks with
       | none => some "ERR"
       | some ((S', ok), rest) =>
@@ -147,6 +198,8 @@ def handleShape (toks : List String) : Option String :=
   | "xform" :: rest => do
       let (S, rest) ← parseShape rest
       if !shapeOk S then return "ERR"
+      -- the `ctrlpts` getter of a NURBS shape divides EVERY stored point by its weight: ZeroDivisionError on a zero weight
+      if zeroWeightStored S then return "ERR"
       match rest with
       | ["T", vs] =>
           let vec ← parseList vs
@@ -157,7 +210,12 @@ def handleShape (toks : List String) : Option String :=
           return showShape (scale S m)
       | ["R", axis, c, sn] =>
           let axis ← axis.toNat?; let c ← parseRat c; let sn ← parseRat sn
-          if axis > 2 then return "ERR"
+          -- 2-D shapes: the code ignores `axis` (`axis = 2 if obj.dimension == 2 else int(axis)`), as `rotatePt` does
+          if axis > 2 && spatialDim S != 2 then return "ERR"
+          -- rotate_x / rotate_y write zeros into the coordinates >= 3, `rotatePt` keeps them: outside the model
+          if spatialDim S > 3 && axis != 2 then return "OUT"
+          -- the centre is the evaluated start point: a rational evaluation divides by its weight
+          if S.rat && (startPointW S).getLastD 0 == 0 then return "ERR"
           return showShape (rotate S axis c sn)
       | _ => none
   -- containers: `xformc <n> <n shapes, each with its kind tag> <T vec | S m | R axis c s>`; answer: the elements joined by ` # `
@@ -167,6 +225,7 @@ def handleShape (toks : List String) : Option String :=
       let n ← n.toNat?
       let (Ss, rest) ← parseShapes n rest
       if !(Ss.all shapeOk) then return "ERR"
+      if Ss.any zeroWeightStored then return "ERR"
       let dimS (S : Shape Rat) := if S.rat then (dimOf S.net) - 1 else dimOf S.net
       match Ss with
       | S0 :: tl => if !(tl.all (fun S => S.pdim == S0.pdim && dimS S == dimS S0)) then return "ERR"
@@ -186,7 +245,11 @@ def handleShape (toks : List String) : Option String :=
           return showAll (scaleAll Ss m)
       | ["R", axis, c, sn] =>
           let axis ← axis.toNat?; let c ← parseRat c; let sn ← parseRat sn
-          if axis > 2 then return "ERR"
+          if axis > 2 && !(Ss.all (fun S => spatialDim S == 2)) then return "ERR"
+          if Ss.any (fun S => spatialDim S > 3) && axis != 2 then return "OUT"
+          match Ss with
+          | S0 :: _ => if S0.rat && (startPointW S0).getLastD 0 == 0 then return "ERR"
+          | [] => pure ()
           match rotateAll Ss axis c sn with
           | some r => return showAll r
           | none => return "ERR"
